@@ -24,6 +24,10 @@ type Scenario struct {
 	// CloseAfter: after the threads have finished the storage is closed and every
 	// query is asked again (file-backed jobs): what was returned stays served.
 	CloseAfter bool
+	// ClosedBefore: the storage is closed before the threads start (and before
+	// the sequential reference answers are taken): queries on a storage whose
+	// lists can no longer be read must be as safe as any other.
+	ClosedBefore bool
 }
 
 var c14ListA = ListSpec{ID: 1, Text: "! list A\n" +
@@ -42,6 +46,9 @@ var c14ListA = ListSpec{ID: 1, Text: "! list A\n" +
 	"example.org##.s1\n" +
 	"example.org#@#.g2\n" +
 	"##.g2\n" +
+	// a bucket of three rules for one host name and a rule of its parent domain
+	// that applies to one of two sibling sub-domains only
+	"shop.example.org##.sh1\nshop.example.org##.sh2\nshop.example.org##.sh3\nexample.org,~b.shop.example.org##.par\n" +
 	// the last line has no line terminator (the reader's end-of-file path) and is
 	// retrieved through its index by the ads.example.com queries
 	"||ads.example.com^"}
@@ -96,6 +103,8 @@ func C14Scenarios() []Scenario {
 	eng := Query{Kind: "engine", URL: "http://example.org/ads", Src: "http://example.org/", Type: rules.TypeScript}
 	eng2 := Query{Kind: "engine", URL: "http://ads.example.com/x", Src: "http://other.test/page", Type: rules.TypeImage}
 	cos := Query{Kind: "cosmetic", Host: "example.org", Option: rules.CosmeticOptionAll}
+	cosA := Query{Kind: "cosmetic", Host: "a.shop.example.org", Option: rules.CosmeticOptionAll}
+	cosB := Query{Kind: "cosmetic", Host: "b.shop.example.org", Option: rules.CosmeticOptionAll}
 	return []Scenario{
 		{Name: "S1-same-rule-twice-in-url-2t", Lists: both, Threads: [][]Query{{twice}, {twice}}, Warm: []Query{twice}},
 		{Name: "S2-different-uncached-rules-2t", Lists: both, Threads: [][]Query{{q1}, {q2}}, Warm: []Query{q1, q2}, CloseAfter: true},
@@ -109,6 +118,8 @@ func C14Scenarios() []Scenario {
 		{Name: "S11-many-names-many-rules-2t", Lists: both, Threads: [][]Query{{d9, d11}, {d10, many}}, Warm: []Query{d1}, QuickBound: 1},
 		{Name: "S9-host-named-twice-2t", Lists: both, Threads: [][]Query{{d8}, {d8, d7}}, Warm: []Query{d1}},
 		{Name: "S5-engine-cosmetic-dns-3t", Lists: both, Threads: [][]Query{{eng}, {cos}, {d1}}, Warm: []Query{eng}},
+		{Name: "S12-cosmetic-sibling-hosts-2t", Lists: both, Threads: [][]Query{{cosA, cosB}, {cosB, cosA}}, Warm: []Query{cos}},
+		{Name: "S13-closed-storage-2t", Lists: both, Threads: [][]Query{{q2, d4}, {q3, d7}}, ClosedBefore: true},
 		{Name: "S7-engine-referrer-2t", Lists: both, Threads: [][]Query{{eng}, {eng2}}, Warm: []Query{eng}},
 		{Name: "S7-engine-same-referrer-2t", Lists: both, Threads: [][]Query{{eng}, {eng}}, Warm: []Query{eng}},
 		{Name: "S4-dns-pool-4t", Lists: both, Threads: [][]Query{{d2}, {d3}, {d5}, {d7}}, Warm: []Query{d1}, MaxBound: 1},
